@@ -18,9 +18,9 @@ Step(A, M) == /\ l <= Len(T.ev) /\ A /\ M /\ Inv' /\ l' = l + 1 /\ UNCHANGED tid
 
 MAdd    == last'.id = E.id /\ E.res = "ok" /\ E.ran = <<>>
 MRemove == last'.res = E.res /\ E.ran = <<>>
-MRun    == last'.res = E.res /\ last'.ran = E.ran
+MRun    == last'.res = E.res /\ last'.ran = E.ran /\ SubMatches(last'.sub, E.sub)
 
-TNext == \/ (E.e = "add"    /\ Step(Add(E.ph, E.k), MAdd))
+TNext == \/ (E.e = "add"    /\ Step(Add(E.ph, [ret |-> E.k, acts |-> E.acts]), MAdd))
          \/ (E.e = "remove" /\ Step(RemoveOk(E.h) \/ RemoveGone(E.h, E.res), MRemove))
          \/ (E.e = "fire"   /\ Step(Fire, MRun))
          \/ (E.e = "fired"  /\ Step(FireDeferred(E.d, E.how) \/ FireLoose(E.d, E.how), MRun))
